@@ -423,3 +423,233 @@ Example C03_ex_roundtrip :
   | Err _ => None
   end = Some (None, [x68; x69]).
 Proof. vm_compute. reflexivity. Qed.
+
+From SP Require GoEndToEndEnc.
+(* ======================================= PART 2: props/C03.v ======================================= *)
+(* ---- END TO END at the level of the translated Go code: proofs/GoEndToEndEnc.v ---- *)
+(* The Go sender session [go_signcrypt_session] RUNS the terms generated from /repo's signcrypt_seal.go: run_func2 of
+   f_saltpack_signcryptSealStream_init, then of f_saltpack_signcryptSealStream_Write on each piece, then of
+   f_saltpack_signcryptSealStream_Close, the receiver object `sss` being read back from the final environment of each
+   call and handed to the next; each call under the externs of its own source tie (C03_source_signcryptSealStream_init, _Write, _Close)
+   with the in-memory writer GoAstProofs6b.mem_enc.  [go_signcrypt_out] = the bytes the writer holds at the end.  The
+   receiver is the translated SigncryptOpen / NewSigncryptOpenStream exactly as in C03_source_SigncryptOpen /
+   C03_source_NewSigncryptOpenStream (inside this section g_signer is GoAstProofs7c's: the signer's public key bytes or
+   nil).  Sources: ra rng.shuffleReceivers, rk rng.createSymmetricKey, rb the ephemeral key creator; the model's single
+   stream r is ra = r, (rb, rk) = sc_model_sources boxes syms r.  NOT covered: newSigncryptSealStream / SigncryptSeal are
+   not translated (the session starts at init on a fresh Version-2 object, fresh_sss); inside SigncryptOpen,
+   NewSigncryptOpenStream and io.ReadAll have the model's meaning (as in C03_source_SigncryptOpen). *)
+Section C03_source_end_to_end.
+Import GoAstOpen GoAstProofs4b GoAstProofs5a GoAstProofs7c GoEndToEndEnc.
+Local Open Scope string_scope.
+
+(* The Go sender session on a fresh object (empty writer) leaves exactly wire in the writer, wire being the model's
+   signcrypt_core on the values the three sources deliver.  Hypotheses: crypto_ok; fresh object; receivers accepted by
+   checkSigncryptReceivers; every Write at most 295 MiB (the evaluator's loop bound); the three draws succeed; the
+   model's signcrypt_core returns Ok. *)
+Theorem C03_source_end_to_end_sender (c : crypto) (Hc : crypto_ok c) (st0 : GoAstProofs6b.sss_state) (signer : option bytes)
+        (boxes : list bytes) (syms : list (bytes * bytes)) (ra rk rb : rng) (rs : list sc_rcpt) (ra1 eph rb1 key rk1 : bytes)
+        (pieces : list bytes) (wire : bytes) :
+  fresh_sss signer st0 ->
+  sc_check_receivers boxes syms = Ok tt ->
+  Forall (fun p : bytes => (List.length p <= 295 * GoAstProofs6b.blk)%nat) pieces ->
+  shuffle (GoAstProofs6b.all_rcpts boxes syms) ra = Some (rs, ra1) ->
+  read_full 32 rb = Some (eph, rb1) ->
+  read_full 32 rk = Some (key, rk1) ->
+  signcrypt_core c signer eph key rs pieces = Ok wire ->
+  (exists st', go_signcrypt_session c (GoAstProofs6b.g_sss st0) boxes syms ra rk rb pieces = Some (GoAstProofs6b.g_sss st') /\
+               GoAstProofs6b.ss_enc st' = VBytes wire /\ GoAstProofs6b.ss_buf st' = []) /\
+  go_signcrypt_out c (GoAstProofs6b.g_sss st0) boxes syms ra rk rb pieces = Some wire.
+Proof. exact (go_signcrypt_session_model c Hc st0 signer boxes syms ra rk rb rs ra1 eph rb1 key rk1 pieces wire). Qed.
+
+(* Whenever the model's signcrypt_open_stream ends cleanly on an input, the translated SigncryptOpen returns the signer,
+   the concatenated chunks and nil, and the translated NewSigncryptOpenStream the signer, the chunk reader over the
+   state the model's loop starts from, and nil.  No "not stuck" hypothesis; every input, keyring, signer ring, resolver. *)
+Theorem C03_source_end_to_end_receiver (c : crypto) (kr : keyring) (signers : sigring) (rv : resolver) (KR RV rd : gval)
+        (wire : bytes) (sg : option bytes) (chunks : list bytes) :
+  signcrypt_open_stream c kr signers rv wire = Ok (sg, mkOut chunks EOF) ->
+  rdr_bytes rd = Some wire ->
+  fst (run_func2 (ext_scopen c kr signers rv) f_saltpack_SigncryptOpen [VBytes wire; KR; RV])
+  = ORet [g_signer sg; VBytes (List.concat chunks); VNil] /\
+  scopen_class (fst (run_func2 (ext_scopen c kr signers rv) f_saltpack_SigncryptOpen [VBytes wire; KR; RV]))
+  = Ok (sg, List.concat chunks) /\
+  exists (pkey hh rest : bytes),
+    fst (run_func2 (ext_nsos c kr signers rv) f_saltpack_NewSigncryptOpenStream [rd; KR; RV])
+    = ORet [g_signer sg; g_cr_new (g_sos_done (g_mps_raw rest 1) KR RV pkey hh sg); VNil] /\
+    sc_open_loop c (S (List.length rest)) pkey sg hh 0 rest [] = mkOut chunks EOF.
+Proof. exact (go_SigncryptOpen_of_model c kr signers rv KR RV rd wire sg chunks). Qed.
+
+(* END TO END, box-key recipient, three independent sources: for every plaintext in any split into Writes (each at most
+   295 MiB), named or anonymous signer, receivers accepted by checkSigncryptReceivers, draws that succeed and on which
+   the model's signcrypt_core returns Ok wire, header shorter than 4 GiB, EVERY box key dh_pub c sk of the list: the Go
+   sender session leaves wire in the writer, and the translated SigncryptOpen on wire under the ring holding that key
+   returns the signer's public key (nil for an anonymous sender), exactly the plaintext and nil; the translated
+   NewSigncryptOpenStream returns the signer, nil and the reader from whose state the loop releases the plaintext -- or
+   an identifier at another position collides with this key's derived identifier there (IdentifierCollision). *)
+Theorem C03_source_end_to_end_roundtrip_box (c : crypto) (Hc : crypto_ok c) (signers : sigring) (rv : resolver) (KR RV rd : gval)
+        (st0 : GoAstProofs6b.sss_state) (signer : option bytes) (boxes : list bytes)
+        (syms : list (bytes * bytes)) (ra rk rb : rng) (rs : list sc_rcpt) (ra1 eph rb1 key rk1 : bytes)
+        (pieces : list bytes) (wire : bytes) (sk : bytes) :
+  fresh_sss signer st0 ->
+  sc_check_receivers boxes syms = Ok tt ->
+  Forall (fun p : bytes => (List.length p <= 295 * GoAstProofs6b.blk)%nat) pieces ->
+  shuffle (GoAstProofs6b.all_rcpts boxes syms) ra = Some (rs, ra1) ->
+  read_full 32 rb = Some (eph, rb1) ->
+  read_full 32 rk = Some (key, rk1) ->
+  signcrypt_core c signer eph key rs pieces = Ok wire ->
+  header_fits c signer eph key rs ->
+  In (dh_pub c sk) boxes ->
+  (forall s, signer = Some s -> In (ed_pub c s) signers /\ all_zero (ed_pub c s) = false) ->
+  rdr_bytes rd = Some wire ->
+  let kr := mkRing [(sk, dh_pub c sk)] None in
+  let sg := option_map (ed_pub c) signer in
+  go_signcrypt_out c (GoAstProofs6b.g_sss st0) boxes syms ra rk rb pieces = Some wire /\
+  ((fst (run_func2 (ext_scopen c kr signers rv) f_saltpack_SigncryptOpen [VBytes wire; KR; RV])
+    = ORet [g_signer sg; VBytes (List.concat pieces); VNil] /\
+    scopen_class (fst (run_func2 (ext_scopen c kr signers rv) f_saltpack_SigncryptOpen [VBytes wire; KR; RV]))
+    = Ok (sg, List.concat pieces) /\
+    exists (pkey hh rest : bytes) (chunks : list bytes),
+      fst (run_func2 (ext_nsos c kr signers rv) f_saltpack_NewSigncryptOpenStream [rd; KR; RV])
+      = ORet [g_signer sg; g_cr_new (g_sos_done (g_mps_raw rest 1) KR RV pkey hh sg); VNil] /\
+      sc_open_loop c (S (List.length rest)) pkey sg hh 0 rest [] = mkOut chunks EOF /\
+      List.concat chunks = List.concat pieces)
+   \/ exists i, nth_error rs i = Some (BoxRcpt (dh_pub c sk)) /\ IdentifierCollision c eph key rs sk i).
+Proof.
+  exact (go_signcrypt_end_to_end_box c Hc signers rv KR RV rd st0 signer boxes syms ra rk rb rs ra1 eph rb1 key rk1 pieces wire sk).
+Qed.
+
+(* END TO END, symmetric-key recipient: a holder of no box key whose resolver maps the identifier of a symmetric-key
+   recipient of the list to its key and resolves only genuine pairs of this message *)
+Theorem C03_source_end_to_end_roundtrip_sym (c : crypto) (Hc : crypto_ok c) (signers : sigring) (rsl : list (bytes * bytes))
+        (KR RV rd : gval) (st0 : GoAstProofs6b.sss_state) (signer : option bytes) (boxes : list bytes)
+        (syms : list (bytes * bytes)) (ra rk rb : rng) (rs : list sc_rcpt) (ra1 eph rb1 key rk1 : bytes)
+        (pieces : list bytes) (wire : bytes) (skey ident : bytes) :
+  fresh_sss signer st0 ->
+  sc_check_receivers boxes syms = Ok tt ->
+  Forall (fun p : bytes => (List.length p <= 295 * GoAstProofs6b.blk)%nat) pieces ->
+  shuffle (GoAstProofs6b.all_rcpts boxes syms) ra = Some (rs, ra1) ->
+  read_full 32 rb = Some (eph, rb1) ->
+  read_full 32 rk = Some (key, rk1) ->
+  signcrypt_core c signer eph key rs pieces = Ok wire ->
+  header_fits c signer eph key rs ->
+  In (skey, ident) syms -> resolve rsl ident = Some skey ->
+  resolver_genuine c rsl eph key rs ->
+  (forall s, signer = Some s -> In (ed_pub c s) signers /\ all_zero (ed_pub c s) = false) ->
+  rdr_bytes rd = Some wire ->
+  let kr := mkRing [] None in
+  let rv := Some rsl in
+  let sg := option_map (ed_pub c) signer in
+  go_signcrypt_out c (GoAstProofs6b.g_sss st0) boxes syms ra rk rb pieces = Some wire /\
+  fst (run_func2 (ext_scopen c kr signers rv) f_saltpack_SigncryptOpen [VBytes wire; KR; RV])
+  = ORet [g_signer sg; VBytes (List.concat pieces); VNil] /\
+  scopen_class (fst (run_func2 (ext_scopen c kr signers rv) f_saltpack_SigncryptOpen [VBytes wire; KR; RV]))
+  = Ok (sg, List.concat pieces) /\
+  exists (pkey hh rest : bytes) (chunks : list bytes),
+    fst (run_func2 (ext_nsos c kr signers rv) f_saltpack_NewSigncryptOpenStream [rd; KR; RV])
+    = ORet [g_signer sg; g_cr_new (g_sos_done (g_mps_raw rest 1) KR RV pkey hh sg); VNil] /\
+    sc_open_loop c (S (List.length rest)) pkey sg hh 0 rest [] = mkOut chunks EOF /\
+    List.concat chunks = List.concat pieces.
+Proof.
+  exact (go_signcrypt_end_to_end_sym c Hc signers rsl KR RV rd st0 signer boxes syms ra rk rb rs ra1 eph rb1 key rk1 pieces wire skey ident).
+Qed.
+
+(* the same against the model's sender on ONE randomness stream r: "the model's sender returns Ok" is
+   signcrypt_seal_stream c signer boxes syms pieces r = Ok (wire, r') *)
+Theorem C03_source_end_to_end_roundtrip_box_stream (c : crypto) (Hc : crypto_ok c) (signers : sigring) (rv : resolver)
+        (KR RV rd : gval) (st0 : GoAstProofs6b.sss_state) (signer : option bytes) (boxes : list bytes) (syms : list (bytes * bytes))
+        (r r' : rng) (pieces : list bytes) (wire : bytes) (sk : bytes) :
+  fresh_sss signer st0 ->
+  Forall (fun p : bytes => (List.length p <= 295 * GoAstProofs6b.blk)%nat) pieces ->
+  signcrypt_seal_stream c signer boxes syms pieces r = Ok (wire, r') ->
+  header_fits c signer (sc_model_eph boxes syms r) (sc_model_key boxes syms r) (sc_model_rs boxes syms r) ->
+  In (dh_pub c sk) boxes ->
+  (forall s, signer = Some s -> In (ed_pub c s) signers /\ all_zero (ed_pub c s) = false) ->
+  rdr_bytes rd = Some wire ->
+  let kr := mkRing [(sk, dh_pub c sk)] None in
+  let sg := option_map (ed_pub c) signer in
+  go_signcrypt_out c (GoAstProofs6b.g_sss st0) boxes syms r (snd (sc_model_sources boxes syms r)) (fst (sc_model_sources boxes syms r)) pieces
+  = Some wire /\
+  ((fst (run_func2 (ext_scopen c kr signers rv) f_saltpack_SigncryptOpen [VBytes wire; KR; RV])
+    = ORet [g_signer sg; VBytes (List.concat pieces); VNil] /\
+    scopen_class (fst (run_func2 (ext_scopen c kr signers rv) f_saltpack_SigncryptOpen [VBytes wire; KR; RV]))
+    = Ok (sg, List.concat pieces) /\
+    exists (pkey hh rest : bytes) (chunks : list bytes),
+      fst (run_func2 (ext_nsos c kr signers rv) f_saltpack_NewSigncryptOpenStream [rd; KR; RV])
+      = ORet [g_signer sg; g_cr_new (g_sos_done (g_mps_raw rest 1) KR RV pkey hh sg); VNil] /\
+      sc_open_loop c (S (List.length rest)) pkey sg hh 0 rest [] = mkOut chunks EOF /\
+      List.concat chunks = List.concat pieces)
+   \/ exists i, nth_error (sc_model_rs boxes syms r) i = Some (BoxRcpt (dh_pub c sk)) /\
+                IdentifierCollision c (sc_model_eph boxes syms r) (sc_model_key boxes syms r) (sc_model_rs boxes syms r) sk i).
+Proof.
+  exact (go_signcrypt_end_to_end_box_stream c Hc signers rv KR RV rd st0 signer boxes syms r r' pieces wire sk).
+Qed.
+
+Theorem C03_source_end_to_end_roundtrip_sym_stream (c : crypto) (Hc : crypto_ok c) (signers : sigring) (rsl : list (bytes * bytes))
+        (KR RV rd : gval) (st0 : GoAstProofs6b.sss_state) (signer : option bytes) (boxes : list bytes) (syms : list (bytes * bytes))
+        (r r' : rng) (pieces : list bytes) (wire : bytes) (skey ident : bytes) :
+  fresh_sss signer st0 ->
+  Forall (fun p : bytes => (List.length p <= 295 * GoAstProofs6b.blk)%nat) pieces ->
+  signcrypt_seal_stream c signer boxes syms pieces r = Ok (wire, r') ->
+  header_fits c signer (sc_model_eph boxes syms r) (sc_model_key boxes syms r) (sc_model_rs boxes syms r) ->
+  In (skey, ident) syms -> resolve rsl ident = Some skey ->
+  resolver_genuine c rsl (sc_model_eph boxes syms r) (sc_model_key boxes syms r) (sc_model_rs boxes syms r) ->
+  (forall s, signer = Some s -> In (ed_pub c s) signers /\ all_zero (ed_pub c s) = false) ->
+  rdr_bytes rd = Some wire ->
+  let kr := mkRing [] None in
+  let rv := Some rsl in
+  let sg := option_map (ed_pub c) signer in
+  go_signcrypt_out c (GoAstProofs6b.g_sss st0) boxes syms r (snd (sc_model_sources boxes syms r)) (fst (sc_model_sources boxes syms r)) pieces
+  = Some wire /\
+  fst (run_func2 (ext_scopen c kr signers rv) f_saltpack_SigncryptOpen [VBytes wire; KR; RV])
+  = ORet [g_signer sg; VBytes (List.concat pieces); VNil] /\
+  scopen_class (fst (run_func2 (ext_scopen c kr signers rv) f_saltpack_SigncryptOpen [VBytes wire; KR; RV]))
+  = Ok (sg, List.concat pieces) /\
+  exists (pkey hh rest : bytes) (chunks : list bytes),
+    fst (run_func2 (ext_nsos c kr signers rv) f_saltpack_NewSigncryptOpenStream [rd; KR; RV])
+    = ORet [g_signer sg; g_cr_new (g_sos_done (g_mps_raw rest 1) KR RV pkey hh sg); VNil] /\
+    sc_open_loop c (S (List.length rest)) pkey sg hh 0 rest [] = mkOut chunks EOF /\
+    List.concat chunks = List.concat pieces.
+Proof.
+  exact (go_signcrypt_end_to_end_sym_stream c Hc signers rsl KR RV rd st0 signer boxes syms r r' pieces wire skey ident).
+Qed.
+
+(* END TO END, a holder of no recipient key (a box key whose derived identifier matches no identifier of the header at
+   its position, a resolver that resolves none of them): the translated SigncryptOpen and NewSigncryptOpenStream return
+   (nil, nil, ErrNoDecryptionKey): no plaintext *)
+Theorem C03_source_end_to_end_no_key (c : crypto) (Hc : crypto_ok c) (signers : sigring) (rsl : list (bytes * bytes))
+        (KR RV rd : gval) (st0 : GoAstProofs6b.sss_state) (signer : option bytes) (boxes : list bytes)
+        (syms : list (bytes * bytes)) (ra rk rb : rng) (rs : list sc_rcpt) (ra1 eph rb1 key rk1 : bytes)
+        (pieces : list bytes) (wire : bytes) (sk : bytes) :
+  fresh_sss signer st0 ->
+  sc_check_receivers boxes syms = Ok tt ->
+  Forall (fun p : bytes => (List.length p <= 295 * GoAstProofs6b.blk)%nat) pieces ->
+  shuffle (GoAstProofs6b.all_rcpts boxes syms) ra = Some (rs, ra1) ->
+  read_full 32 rb = Some (eph, rb1) ->
+  read_full 32 rk = Some (key, rk1) ->
+  signcrypt_core c signer eph key rs pieces = Ok wire ->
+  header_fits c signer eph key rs ->
+  (forall kid, In kid (sc_header_kids c eph key rs) -> resolve rsl kid = None) ->
+  (forall j kid, nth_error (sc_header_kids c eph key rs) j = Some kid ->
+     box_key_identifier c (derived_box_key c sk (dh_pub c eph)) (N.of_nat j) <> kid) ->
+  rdr_bytes rd = Some wire ->
+  let kr := mkRing [(sk, dh_pub c sk)] None in
+  let rv := Some rsl in
+  go_signcrypt_out c (GoAstProofs6b.g_sss st0) boxes syms ra rk rb pieces = Some wire /\
+  fst (run_func2 (ext_scopen c kr signers rv) f_saltpack_SigncryptOpen [VBytes wire; KR; RV])
+  = ORet [VNil; VNil; VErr "ErrNoDecryptionKey" []] /\
+  scopen_class (fst (run_func2 (ext_scopen c kr signers rv) f_saltpack_SigncryptOpen [VBytes wire; KR; RV]))
+  = Err ErrNoDecryptionKey /\
+  fst (run_func2 (ext_nsos c kr signers rv) f_saltpack_NewSigncryptOpenStream [rd; KR; RV])
+  = ORet [VNil; VNil; VErr "ErrNoDecryptionKey" []].
+Proof.
+  exact (go_signcrypt_end_to_end_stranger c Hc signers rsl KR RV rd st0 signer boxes syms ra rk rb rs ra1 eph rb1 key rk1 pieces wire sk).
+Qed.
+End C03_source_end_to_end.
+
+Print Assumptions C03_source_end_to_end_sender.
+Print Assumptions C03_source_end_to_end_receiver.
+Print Assumptions C03_source_end_to_end_roundtrip_box.
+Print Assumptions C03_source_end_to_end_roundtrip_sym.
+Print Assumptions C03_source_end_to_end_roundtrip_box_stream.
+Print Assumptions C03_source_end_to_end_roundtrip_sym_stream.
+Print Assumptions C03_source_end_to_end_no_key.
+
